@@ -62,15 +62,26 @@ pub fn parse_rootdefinition_enum(
                         .type_registry
                         .register_type(ir::TypeLayer::Scalar(ir::ScalarType::Int32)),
                 ),
-                Some(last_value) => {
-                    let next_value = match last_value.0 {
-                        ir::Constant::IntLiteral(v) => ir::Constant::IntLiteral(v.wrapping_add(1)),
-                        ir::Constant::Int32(v) => ir::Constant::Int32(v.wrapping_add(1)),
-                        ir::Constant::UInt32(v) => ir::Constant::UInt32(v.wrapping_add(1)),
-                        _ => panic!("Unexpected constant type in enum value"),
-                    };
-                    (next_value, last_value.1)
-                }
+                Some(last_value) => match last_value.0 {
+                    ir::Constant::IntLiteral(v) => {
+                        (ir::Constant::IntLiteral(v.wrapping_add(1)), last_value.1)
+                    }
+                    ir::Constant::Int32(v) => {
+                        (ir::Constant::Int32(v.wrapping_add(1)), last_value.1)
+                    }
+                    ir::Constant::UInt32(v) => {
+                        (ir::Constant::UInt32(v.wrapping_add(1)), last_value.1)
+                    }
+                    // A bool value is allowed - the value after it continues as an integer
+                    ir::Constant::Bool(v) => (
+                        ir::Constant::Int32(i32::from(v) + 1),
+                        context
+                            .module
+                            .type_registry
+                            .register_type(ir::TypeLayer::Scalar(ir::ScalarType::Int32)),
+                    ),
+                    _ => panic!("Unexpected constant type in enum value"),
+                },
             }
         };
 
